@@ -327,7 +327,10 @@ PROPS = {
         lemmas=[],
         bounded=[dict(kind="native_script", name="the primary's way into the formula (pool -> resampled builder -> engine): a valid "
                                                  "reading, exactly 0.0 included, reaches the formula as that number",
-                      module="native.explore_formula_pool")],
+                      module="native.explore_formula_pool"),
+                 dict(kind="native_script", name="switching on the real engine with a real FallbackFormulaMetricFetcher: validity patterns "
+                                                 "of the primary, a closing primary stream, fallback inputs ahead / behind / starting late",
+                      module="native.explore_fallback")],
         level="proof",
         explanation="MetricFetcher's switching logic against scripted primary/fallback streams on a common grid (timestamps "
                     "counted in grid steps): the fallback stream is read forward until it reaches the primary sample's "
